@@ -81,7 +81,7 @@ func runChrome(bin, scratch string, batch int, cases []chromeCase) ([]chromeResu
 		return nil, err
 	}
 	prof := filepath.Join(scratch, fmt.Sprintf("prof%d", batch))
-	cmd := exec.Command(bin, "--no-sandbox", "--disable-gpu", "--disable-dev-shm-usage", "--user-data-dir="+prof, "--virtual-time-budget=120000", "--dump-dom", "file://"+path)
+	cmd := exec.Command(bin, "--no-sandbox", "--disable-gpu", "--disable-dev-shm-usage", "--user-data-dir="+prof, "--virtual-time-budget=900000", "--dump-dom", "file://"+path)
 	cmd.Env = append(os.Environ(), "HOME="+scratch)
 	done := make(chan struct{})
 	var out []byte
@@ -219,6 +219,10 @@ func checkC12(r *Run) {
 			if g.features["trailing-decl"] {
 				tags = append(tags, "declaration-after-nested-rule")
 			}
+			if hostile && g.features["layer-order"] && v.engines != nil {
+				// an unclosed style rule earlier in a malformed sheet makes the layer-order statement a *nested* statement
+				tags = append(tags, "layer-statement-inside-style-rule")
+			}
 			sig := ""
 			if len(tags) > 0 {
 				sig = "deviation[" + strings.Join(tags, ",") + "]:"
@@ -260,6 +264,11 @@ func checkC12(r *Run) {
 		}
 		res, err := runChrome(bin, scratch, bi, cases[lo:hi])
 		atomic.AddInt64(&st.batches, 1)
+		if err != nil {
+			// one more attempt (a loaded machine can starve a renderer)
+			r.Count("chrome_batches_retried", 1)
+			res, err = runChrome(bin, scratch, bi+100000, cases[lo:hi])
+		}
 		if err != nil {
 			atomic.AddInt64(&failed, 1)
 			fmt.Printf("  note: chrome batch %d failed: %v\n", bi, err)
